@@ -232,6 +232,46 @@ func main() {
 			did := "did:ion:" + op.UniqueSuffix + ":" + encoder.EncodeToString(reqs[i])
 			return snap(handler.ResolveDocument(did))
 		}},
+		{"resolve-same-suffix", func(i int) string {
+			// three long-form DIDs sharing one suffix: the DID as created, the same request without its type
+			// member (another canonical initial state) and a foreign initial state - resolved one after the
+			// other, then all at the same moment; each call must get the answer it gets on its own
+			base := reqs[i]
+			op, e := parser.Parse("did:ion", base)
+			if e != nil {
+				return "ERR-PARSE"
+			}
+			var m map[string]json.RawMessage
+			json.Unmarshal(base, &m)
+			delete(m, "type")
+			nb, _ := canonicalizer.MarshalCanonical(m)
+			dids := []string{"did:ion:" + op.UniqueSuffix + ":" + encoder.EncodeToString(base), "did:ion:" + op.UniqueSuffix + ":" + encoder.EncodeToString(nb),
+				"did:ion:" + op.UniqueSuffix + ":" + encoder.EncodeToString(reqs[(i+1)%len(reqs)])}
+			alone := make([]string, len(dids))
+			for k, d := range dids {
+				alone[k] = snap(handler.ResolveDocument(d))
+			}
+			const reps = 4
+			together := make([]string, len(dids)*reps)
+			start := make(chan struct{})
+			var wg sync.WaitGroup
+			for k := range together {
+				wg.Add(1)
+				go func(k int) {
+					defer wg.Done()
+					<-start
+					together[k] = snap(handler.ResolveDocument(dids[k%len(dids)]))
+				}(k)
+			}
+			close(start)
+			wg.Wait()
+			for k := range together {
+				if together[k] != alone[k%len(dids)] {
+					return fmt.Sprintf("call for DID %d got another answer when made together with the others", k%len(dids))
+				}
+			}
+			return fmt.Sprintf("each call answered as on its own: %.40s", alone[0])
+		}},
 		{"process", func(i int) string { return snap(handler.ProcessOperation(reqs[i])) }},
 	}
 	// calls that fail (error paths release pooled or cached resources too): made before the
